@@ -661,6 +661,25 @@ func c18(c *Ctx) {
 			r.Break("C18.F2: no proto.Unmarshal call found in %s", name)
 			continue
 		}
+		// unmErr: an error variable every definition of which is an Unmarshal call (a bare `var err error` aside)
+		unmErr := func(id *ast.Ident) bool {
+			o := astx.Obj(info, id)
+			if o == nil || !types.Identical(o.Type(), types.Universe.Lookup("error").Type()) {
+				return false
+			}
+			nU := 0
+			for _, d := range defsOf(info, fi.Node(), o) {
+				if d == nil {
+					continue
+				}
+				if call, isCall := ast.Unparen(d).(*ast.CallExpr); isCall && isUnm(call) {
+					nU++
+				} else {
+					return false
+				}
+			}
+			return nU > 0
+		}
 		reach := g.Reach(uV, nil, nil)
 		nRet := 0
 		for _, rv := range g.Returns() {
@@ -679,21 +698,24 @@ func c18(c *Ctx) {
 			} else if call, isCall := last.(*ast.CallExpr); isCall && isUnm(call) {
 				ok = true
 			} else if id, isID := last.(*ast.Ident); isID {
-				// every definition of the variable is an Unmarshal call (a bare `var err error` declaration aside)
-				defs := defsOf(info, fi.Node(), astx.Obj(info, id))
-				nU := 0
-				ok = true
-				for _, d := range defs {
-					if d == nil {
-						continue
+				ok = unmErr(id)
+			} else if call, isCall := last.(*ast.CallExpr); isCall {
+				// an error built from the Unmarshal error where that error is set (fmt.Errorf("entry %d: %w", index, err)): the
+				// decoding failed, nothing that unmarshalled is rejected
+				ast.Inspect(call, func(m ast.Node) bool {
+					aid, isA := m.(*ast.Ident)
+					if !isA || !unmErr(aid) {
+						return true
 					}
-					if call, isCall := ast.Unparen(d).(*ast.CallExpr); isCall && isUnm(call) {
-						nU++
-					} else {
-						ok = false
+					for _, f := range g.FactsAt(rv.ID) {
+						if x, isNil, isCmp := nilCompare(info, f); isCmp && !isNil {
+							if xid, isX := ast.Unparen(x).(*ast.Ident); isX && astx.Obj(info, xid) == astx.Obj(info, aid) {
+								ok = true
+							}
+						}
 					}
-				}
-				ok = ok && nU > 0
+					return true
+				})
 			}
 			r.Check(ok, "C18.F2", fi.Name(), "after the bytes unmarshalled the entry is returned, not rejected", c.P.Pos(rs.Pos()), "error result is nil or the Unmarshal error",
 				"the reader refuses an entry for a reason other than a decoding failure: the store writes every entry raft hands it (configuration changes, barriers, no-ops), so an entry the store acknowledged cannot be read back and the store does not open again")
